@@ -7,6 +7,7 @@ package cli
 // Parse returns exactly one of: an error, *Help, *Generate, *Version
 //@ func Parse(args)
 //@   props C17 C13
+//@   errdrop fs.Parse#1 -h / --help is reported by the flag package as the error flag.ErrHelp: it becomes the Help command (exit 0), every other error is returned as usage error
 //@   ensures err != nil ==> result == nil
 //@   ensures err == nil ==> result != nil && (dynIs[*Help](result) || dynIs[*Generate](result) || dynIs[*Version](result))
 //@   ensures len(args) == 0 ==> err != nil
@@ -15,6 +16,7 @@ package cli
 // CLI defaults: -build-tags goverter, -output-constraint !goverter; every -g/-global value becomes a global line
 //@ func parseGen(cmd, args)
 //@   props C17 C16 C12 C13
+//@   errdrop fs.Parse#1 -h / --help is reported by the flag package as the error flag.ErrHelp: it becomes the Help command (exit 0), every other error is returned as usage error
 //@   at@C16 call fs.String#1 assert arg0 == "build-tags" && arg1 == "goverter"
 //@   at@C16 call fs.String#2 assert arg0 == "output-constraint" && arg1 == "!goverter"
 // C17: gen without a PATTERN is a usage error, whatever options precede it
@@ -42,3 +44,9 @@ package cli
 //@   at call os.Exit#2 assert err == nil
 //@   at call os.Exit#3 assert err != nil
 //@   at return assert err == nil
+
+// C12: every -g / -global value is kept, in the order given (the lines are applied in that order: the last one wins)
+//@ func Strings.Set(s; value)
+//@   props C12
+//@   ensures err == nil && len(*s) == old(len(*s)) + 1 && (*s)[len(*s)-1] == value
+//@   ensures forall j int :: 0 <= j && j < old(len(*s)) ==> (*s)[j] == old((*s)[j])
